@@ -192,6 +192,22 @@ class Segment:
         except FileNotFoundError:
             return None
 
+    def disk_state(self):
+        """{relative path: (size, sha)} of every file on the simulated disk."""
+        out = {}
+        root = self.disk.root
+        for base, dirs, files in os.walk(root):
+            dirs.sort()
+            for name in sorted(files):
+                full = os.path.join(base, name)
+                try:
+                    with simdisk.REAL_OPEN(full, "rb") as fh:
+                        data = fh.read()
+                except OSError:
+                    continue
+                out[os.path.relpath(full, root)] = (len(data), sha(data))
+        return out
+
     def model_tags(self, handle):
         entry = self.models.get(handle)
         if entry is None:
@@ -313,6 +329,7 @@ class Segment:
             self.probe("stale_target_prepared")
             self.files[rel] = {"fmt": None, "state": "stale", "ref": None}
         before_bytes = None if rel is None else self.read_bytes(rel)
+        disk_before = self.disk_state()
         key = "W:%s:%s:%s" % (fmt, op["m"], rel)
         if op.get("writer") == "reuse" and key in self.objects:
             writer = self.objects[key]
@@ -358,11 +375,17 @@ class Segment:
                       "path=None but the writer opened %r" % ([e["path"] for e in sim_opens],),
                       tags)
         for ev in sim_opens:
-            if rel is not None and ev["path"] != rel and any(c in ev["mode"] for c in "wax+"):
-                self.fail("C12", "writer.touches_other_path", site,
-                          "wrote to %r while serialising to %r" % (ev["path"], rel), tags)
             if "encoding_defaulted" in ev and any(c in ev["mode"] for c in "wax+"):
                 tags.append("env.encoding_defaulted")
+        # nothing but the target may be different on the disk afterwards (a temporary file that
+        # is gone again, e.g. write-then-rename, is fine)
+        disk_after = self.disk_state()
+        for other in sorted(set(list(disk_before) + list(disk_after))):
+            if other != rel and disk_before.get(other) != disk_after.get(other):
+                self.fail("C12", "writer.touches_other_path", site,
+                          "%r was %s while serialising to %r" % (
+                              other, "created" if other not in disk_before else
+                              "removed" if other not in disk_after else "modified", rel), tags)
         after_bytes = None if rel is None else self.read_bytes(rel)
         hard = [k for k in fired if k in ("open_err", "write_err")]
         if op.get("nodir"):
